@@ -1,6 +1,7 @@
 import WpModel.Model.Wire
 import WpModel.Model.TableBreaks
 import WpModel.Model.BreakConserve
+import WpModel.Model.TableNames
 import WpModel.Drive.Trace
 import WpModel.Drive.BreakTrace
 
@@ -59,6 +60,22 @@ def obs? : Sx → Option TableObs
            prevIsFirst := (← pif.bool?), tableIsFirst := (← tif.bool?) }
   | _ => none
 
+partial def nelem? : Sx → Option TableNames.NElem
+  | .list [.atom "block", p, .list kids] => do pure (.block (← name? p) (← allSome nelem? kids))
+  | .list [.atom "para", p] => do pure (.para (← name? p))
+  | _ => none
+
+def nameObs? : Sx → Option (Option (TableNames.NameObs × Bool))
+  | .atom "none" => some none
+  | .list [a, b, n, f] => do pure (some (⟨← a.nat?, ← b.nat?, ← name? n⟩, ← f.bool?))
+  | _ => none
+
+def showBoundaryName : Option (PBox × PBox) → String
+  | none => "x"
+  | some ab => match pageNameBetween ab.1 ab.2 with
+    | none => "none"
+    | some n => showName n
+
 def showBrks (l : List Brk) : String := "(" ++ " ".intercalate (l.map Brk.toCss) ++ ")"
 def showNats (l : List Nat) : String := "(" ++ " ".intercalate (l.map toString) ++ ")"
 
@@ -66,6 +83,9 @@ def showNats (l : List Nat) : String := "(" ++ " ".intercalate (l.map toString) 
   `table-breaks <prev> <table> <next>` → `<before the table> <after the table> (<inside…>)`
   `table-obs <prev> <table> <next> <obs>` → `ok` | `bad (boundaries…)`
   `page-values <pbox>` → `<start> <end>` ; `page-name <pbox> <pbox>` → name | `none`  (`-` = the empty name)
+  `table-names <inherited> <prev> <page of the table> (top captions…) (bottom captions…) <next>` → the name asked at
+      the four boundaries (`x` = no such boundary)
+  `table-name-obs … (obs…)` → `ok` | `bad (boundaries…)`   (obs = `none` | `(pageA pageB nameB fresh)`)
   `avoid-conserve (groups…) (pages…) (avoid obs…)` → `ok` | `bad (groups…) (observations…)` -/
 def handle (cmd : String) (args : List Sx) : Option String :=
   match cmd, args with
@@ -84,6 +104,15 @@ def handle (cmd : String) (args : List Sx) : Option String :=
     match pageNameBetween (← pbox? a) (← pbox? b) with
     | some n => pure (showName n)
     | none => pure "none"
+  | "table-names", [inh, p, tp, .list tops, .list bottoms, n] => do
+    let bs := TableNames.nameBoundaries (← name? inh) (← nelem? p) (← name? tp) (← allSome name? tops)
+      (← allSome name? bottoms) (← nelem? n)
+    pure (" ".intercalate (bs.map showBoundaryName))
+  | "table-name-obs", [inh, p, tp, .list tops, .list bottoms, n, .list os] => do
+    let bs := TableNames.nameBoundaries (← name? inh) (← nelem? p) (← name? tp) (← allSome name? tops)
+      (← allSome name? bottoms) (← nelem? n)
+    let bad := TableNames.namesBad bs (← allSome nameObs? os)
+    pure (if bad.isEmpty then "ok" else s!"bad {showNats bad}")
   | "avoid-conserve", [.list gs, .list ps, .list os] => do
     let gs ← allSome Trace.group? gs
     let ps ← allSome Trace.natList? ps
